@@ -1,6 +1,7 @@
 package pebbles
 
 import (
+	"github.com/buildbuildio/pebbles/planner"
 	"github.com/buildbuildio/pebbles/merger"
 	"encoding/json"
 	"sort"
@@ -271,13 +272,31 @@ func VerifIntrospectionSiblings() {
 // Afterwards the schema still enforces what it enforced before (a required argument stays required).
 func VerifIntrospectionHistory() {
 	vK = 1
-	f := vNewFed(&vWorld{ents: map[string]vEnt{}, roots: map[string]interface{}{}}, nil, vS16A, vS16B)
-	q := `query Q($n: String!, $d: Boolean) { __type(name: $n) { name fields(includeDeprecated: $d) { name type { kind name ofType { kind name } } } enumValues(includeDeprecated: $d) { name } } }`
+	// with the plain planner or the caching one (the selection text of every request is the same: what differs
+	// are the variable values and, with declared defaults, the variable declarations)
+	var opts []GatewayOption
+	if verifChoice("planner", 2) == 1 {
+		opts = append(opts, WithPlanner(planner.NewCachedPlanner(1000000000)))
+	}
+	f := vNewFed(&vWorld{ents: map[string]vEnt{}, roots: map[string]interface{}{}}, opts, vS16A, vS16B)
+	sel := ` { __type(name: $n) { name fields(includeDeprecated: $d) { name type { kind name ofType { kind name } } } enumValues(includeDeprecated: $d) { name } } }`
 	n := 1 + verifChoice("len", verifParam("hmax", 2))
 	for r := 0; r < n; r++ {
 		tn := []string{"Cat", "Mood", "Query"}[verifChoice("n"+verifItoa(r), 3)]
 		d := verifChoice("d"+verifItoa(r), 2) == 1
-		_, out := f.vPost(q, map[string]interface{}{"n": tn, "d": d}, "Q")
+		q := `query Q($n: String!, $d: Boolean)` + sel
+		vars := map[string]interface{}{"n": tn, "d": d}
+		switch verifChoice("declared"+verifItoa(r), 3) {
+		case 1:
+			// the value comes from the declaration's default instead
+			q = `query Q($n: String!, $d: Boolean = ` + map[bool]string{true: "true", false: "false"}[d] + `)` + sel
+			vars = map[string]interface{}{"n": tn}
+		case 2:
+			// neither a value nor a default: the argument is absent
+			vars = map[string]interface{}{"n": tn}
+			d = false
+		}
+		_, out := f.vPost(q, vars, "Q")
 		verifAssert(out["errors"] == nil, "the introspection operation is answered without errors")
 		data, _ := out["data"].(map[string]interface{})
 		typ, _ := data["__type"].(map[string]interface{})
